@@ -34,7 +34,7 @@ TEXT = {'text': 'Proof. tagfilter and tagfilter_block are modelled with every in
          'kept as a Lean witness; form feed as a tag-name delimiter was missing on the pinned tree (the isspace of comrak has no FF) and is repaired too (tagfilter_formfeed_filtered). Tie to the code: the '
          "real tagfilter/tagfilter_block (hook) equal the model on all strings of length <= 3 (quick) / 4 (thorough) over the property's 23-symbol "
          'alphabet in three letter cases, on every name x cut x delimiter x case mask, on random longer literals and on every raw literal of '
-         'generated documents; whole documents with tagfilter on/off are byte-equal to the model rendering.',
+         'generated documents; whole documents with tagfilter on/off are byte-equal to the model rendering; and the two renderers are checked against the rule itself (written once more in Rust) on single-node trees - every literal as inline HTML in a paragraph and as an HTML block of every block type - so that a change in how the renderers call the filter is reported with the literal that shows it.',
  'note': 'Trusted: Lean kernel + standard axioms; harness/driver/hook wrappers; ASCII vs Unicode lower-casing argument.',
  'technique': 'Lean 4 theorems (model = independent GFM spec, by list induction and a uniqueness argument over the 9-name blacklist) + '
               'exhaustive/structured differential correspondence through cfg(comrak_verif) hooks',
